@@ -86,6 +86,26 @@ class ScriptedBackend(object):
         raise NotImplementedError
 
 
+def register_keys(s, vs, keymask, form):
+    """Every way of handing variables to add_answer_key()."""
+    keys = [v for v, k in zip(vs, keymask) if k]
+    if form == 0:
+        for v in keys:
+            s.add_answer_key(v)
+    elif form == 1:
+        s.add_answer_key(list(keys))
+    elif form == 2:
+        s.add_answer_key(*keys)
+    elif form == 3:
+        s.add_answer_key((v for v in keys))
+    elif form == 4:
+        s.add_answer_key(map(lambda v: v, keys))
+    elif form == 5:
+        s.add_answer_key([keys[:1], iter(keys[1:])])
+    else:
+        s.add_answer_key(tuple(keys), [])
+
+
 def judge(part, case, vs, S, keymask, result, route):
     """Oracle of C02 for one finished execution."""
     sat = bool(S)
@@ -133,9 +153,9 @@ def run_scripted(part, typing, S, keymask):
     def one(t):
         s, vs = make_solver(typing)
         s.ensure(table_expr(vs, S))
-        for v, k in zip(vs, keymask):
-            if k:
-                s.add_answer_key(v)
+        register_keys(s, vs, keymask, (len(S) + sum(keymask)) % 7)
+        if list(s.is_answer_key) != list(keymask):
+            return ("raises", "KeysNotRegistered", "is_answer_key=%r after registering %r" % (s.is_answer_key, keymask)), vs
         ScriptedBackend.TAPE = t
         ScriptedBackend.SOLVES = 0
         with warnings.catch_warnings():
@@ -281,6 +301,55 @@ def run_wire(part, wire, backend, typing, S, keymask):
     part.count("transitions", nexec)
 
 
+def run_scale(part, n, free_first):
+    """Many answer keys through the real z3 backend; the facts are known by construction: `forced` keys are pinned by
+    constraints, `free` boolean keys are unconstrained, and two integer keys are only linked by !=."""
+    from cspuz import Solver
+
+    nfree = max(1, min(40, n // 6))
+    s = Solver()
+    free = [s.bool_var() for _ in range(nfree)] if free_first else []
+    forced = [s.bool_var() for _ in range(n - nfree)]
+    if not free_first:
+        free = [s.bool_var() for _ in range(nfree)]
+    a = s.int_var(1000, 1001)
+    b = s.int_var(1000, 1001)
+    big = s.int_var(0, 5000)
+    for k, v in enumerate(forced):
+        s.ensure(v if k % 2 == 0 else ~v)
+    s.ensure(a != b)
+    s.ensure(big == 4097)
+    s.add_answer_key(free, forced, a, b, big)
+    case = {"route": "scale", "keys": n + 3, "free_first": free_first}
+    part.count("evaluations")
+    part.count("transitions")
+    with warnings.catch_warnings():
+        warnings.simplefilter("ignore")
+        try:
+            r = s.solve(backend="z3")
+        except Exception as e:
+            part.violation("scale:raises-" + type(e).__name__, case, {"exception": repr(e)[:200]})
+            return
+    bad = []
+    if r is not True:
+        bad.append(("verdict", r))
+    for k, v in enumerate(forced):
+        want = (k % 2 == 0)
+        if v.sol is not want:
+            bad.append(("forced#%d" % k, v.sol))
+    for k, v in enumerate(free):
+        if v.sol is not None:
+            bad.append(("free#%d" % k, v.sol))
+    if a.sol is not None or b.sol is not None:
+        bad.append(("linked-ints", (a.sol, b.sol)))
+    if big.sol != 4097:
+        bad.append(("big", big.sol))
+    if bad:
+        part.violation("scale:wrong-facts", case, {"first": repr(bad[0]), "wrong_keys": len(bad)})
+    else:
+        part.add("cases", ("scale", n, free_first))
+
+
 def typings(n):
     return list(itertools.product(sorted(KINDS), repeat=n))
 
@@ -293,6 +362,9 @@ def space_size(typing):
 
 
 def worker(shard, part):
+    if shard[0] == "scale":
+        run_scale(part, shard[1], shard[2])
+        return
     what, typing, lo, hi = shard
     _, vs = make_solver(typing)
     A = space(vs)
@@ -343,8 +415,10 @@ def main(tier, seed, only=None):
         "choice sequences of a conforming backend that may return any remaining model (choice-tape DFS on the real "
         "Solver.solve); route 'z3': the same (S, keys) through the real z3 backend; routes sugar_extended/csugar/enigma_csp/"
         "cspuz_core: native deduction reply of the reference external solver under every permutation of reply lines; route "
-        "'sugar': refute-and-resolve over the text protocol with every model choice.  State = (S, keys, answer vector after "
-        "each round); states counted as distinct (typing, S, keys) cases.",
+        "'sugar': refute-and-resolve over the text protocol with every model choice.  Answer keys are registered through 7 forms of add_answer_key (single, "
+        "list, varargs, generator, map, nested iterators, tuple).  Scale family (not exhaustive): 8..300 (thorough 1025) answer keys through the real z3 "
+        "backend with facts known by construction (pinned keys, free keys, two ints linked by !=), free keys first or last.  State = (S, keys, answer "
+        "vector after each round); states counted as distinct (typing, S, keys) cases.",
     )
     run.assumptions = [
         "a conforming backend returns, at every solve(), some model of all constraints it was given (scripted backend filters "
@@ -372,6 +446,9 @@ def main(tier, seed, only=None):
             if sz <= (6 if tier == "quick" else 8):
                 for lo in range(0, total, step):
                     shards.append(("wire", ty, lo, min(total, lo + step)))
+    for n in ((8, 64, 255, 256, 257, 300) if tier == "quick" else (8, 64, 127, 128, 129, 255, 256, 257, 300, 511, 512, 513, 1025)):
+        for ff in (False, True):
+            shards.append(("scale", n, ff))
     if only:
         shards = [s for s in shards if s[0] == only]
     par.run_shards(run, worker, shards, seed)
